@@ -18,11 +18,14 @@ def corrupted (w : World) : Bool :=
   (match ro.sub with
    | some s => decide (s.curIdx < 1 ∨ s.curIdx > n) || s.lastUpdate = .none
    | none => false) ||
-  (match w.br with
-   | some b => (match b.partition with
-      | none => true
-      | some p => decide (p < 0 ∨ p ≥ b.batches.length))
-   | none => false)
+  -- a BatchRelease without (or with an out-of-range) batch partition is dereferenced only when a plan change
+  -- is recalculated while rolling
+  (ro.phase = .progressing && ro.reason = .inRolling &&
+   (match w.br with
+    | some b => (match b.partition with
+       | none => true
+       | some p => decide (p < 0 ∨ p ≥ b.batches.length))
+    | none => false))
 
 end RV.Oracle.RolloutSM
 
